@@ -485,9 +485,26 @@ Definition m_lognot (args : list val) : out :=
   | _ => {| o_res := RVal VInexact; o_args := args |}        (* argument count errors: not modelled *)
   end.
 
+(* ---- max min (pkg/cl/max.go, min.go): the running extreme is compared with each further operand after
+   NormalizeNumber(operand, extreme) - the same promotion and the same per-representation comparison as in
+   the < and > chains - and replaced by the OPERAND ITSELF (not its promoted form) when that is strictly
+   larger / smaller; so of equal values the earliest wins and the result keeps its own representation ---- *)
+Fixpoint ext_loop (c : cmp) (cur : val) (rest : list val) : res :=
+  match rest with
+  | [] => RVal cur
+  | a :: rest' => match cmp_pair c cur a with
+                  | Some true => ext_loop c a rest'
+                  | Some false => ext_loop c cur rest'
+                  | None => RVal VInexact
+                  end
+  end.
+Definition m_ext (mx : bool) (args : list val) : out :=
+  {| o_res := match args with [] => RCond CArith | a :: rest => ext_loop (if mx then CLt else CGt) a rest end;
+     o_args := args |}.
+
 Inductive opn :=
 | OAdd | OSub | OMul | ODiv | ORound (m : rounding) | OMod | ORem | OAbs | OInc | ODec | OGcd | OLcm | OCmp (c : cmp)
-| OBit (b : bitop) | OLognot.
+| OBit (b : bitop) | OLognot | OExt (mx : bool).      (* OExt true = max, OExt false = min *)
 
 Definition m_op (o : opn) (args : list val) : out :=
   match o with
@@ -496,4 +513,5 @@ Definition m_op (o : opn) (args : list val) : out :=
   | OInc => m_inc 1 args | ODec => m_inc (-1) args | OGcd => m_gcd args | OLcm => m_lcm args
   | OCmp c => m_cmp c args
   | OBit b => m_bit b args | OLognot => m_lognot args
+  | OExt mx => m_ext mx args
   end.
